@@ -123,7 +123,7 @@ func c04RunInner(c *c04Case) string {
 			return fmt.Sprintf("frame does not start with varint 0x401: % x", frame[:2])
 		}
 		body := frame[2:]
-		wantLen := varintLen(uint64(len(c.Addr))) + len(c.Addr) + varintLen(uint64(c.Pad)) + c.Pad
+		wantLen := c04VarintLen(uint64(len(c.Addr))) + len(c.Addr) + c04VarintLen(uint64(c.Pad)) + c.Pad
 		if len(body) != wantLen {
 			return fmt.Sprintf("frame length %d, expected %d (padding length not as drawn?)", len(body), wantLen)
 		}
@@ -152,7 +152,7 @@ func c04RunInner(c *c04Case) string {
 			return "write error: " + err.Error()
 		}
 		body := w.Bytes()
-		wantLen := 1 + varintLen(uint64(len(c.Addr))) + len(c.Addr) + varintLen(uint64(c.Pad)) + c.Pad
+		wantLen := 1 + c04VarintLen(uint64(len(c.Addr))) + len(c.Addr) + c04VarintLen(uint64(c.Pad)) + c.Pad
 		if len(body) != wantLen {
 			return fmt.Sprintf("frame length %d, expected %d", len(body), wantLen)
 		}
@@ -180,7 +180,7 @@ func c04RunInner(c *c04Case) string {
 	return ""
 }
 
-func varintLen(v uint64) int {
+func c04VarintLen(v uint64) int {
 	switch {
 	case v <= 63:
 		return 1
@@ -476,7 +476,7 @@ func c04Enumerate(sh *evidence.Shard) {
 			for pad := 0; pad <= 3; pad++ {
 				for _, tr := range [][]byte{nil, {0x44, 0x01}} {
 					c := c04Case{Kind: kind, Addr: c04Content(3, al), OK: true, Pad: pad, Trailing: tr}
-					n := varintLen(uint64(al)) + al + 1 + pad + len(tr)
+					n := c04VarintLen(uint64(al)) + al + 1 + pad + len(tr)
 					if kind == "resp-chunk" {
 						n++
 					}
@@ -505,9 +505,9 @@ func c04Enumerate(sh *evidence.Shard) {
 				if kind == "resp-chunk" {
 					hdr = 1
 				}
-				b1 := hdr + varintLen(uint64(al))
+				b1 := hdr + c04VarintLen(uint64(al))
 				b2 := b1 + al
-				b3 := b2 + varintLen(uint64(pad))
+				b3 := b2 + c04VarintLen(uint64(pad))
 				b4 := b3 + pad
 				n := b4 + 3
 				var offs []int
